@@ -519,10 +519,7 @@ func execC14Inner(c c14Case) *ev.Failure {
 		srv := frugal.NewFNatsServerBuilder(sconn, proc, pf, []string{subj}).WithWorkerCount(uint(c.Workers)).Build()
 		served := make(chan error, 1)
 		go func() { served <- srv.Serve() }()
-		for i := 0; i < 400 && sconn.NumSubscriptions() == 0; i++ {
-			time.Sleep(500 * time.Microsecond)
-		}
-		sconn.Flush()
+		awaitSubscribed(sconn)
 		defer func() { srv.Stop(); <-served }()
 		var rmu sync.Mutex
 		replies := map[string][][]byte{}
